@@ -506,3 +506,46 @@ def yyread_jobs(ctx, spec, cfg, variants=('fread', 'getc', 'read'), m=3, k=3, ca
             jobs.append(j)
     ctx.functions.update(['yyread'])
     return jobs, gens
+
+
+def tload_jobs(ctx, spec, cfg, layouts=('W', 'OW', 'WO', 'OOW', 'OWO'), widths=((2, 1), (1, 1), (4, 2)), n=2, cuts=('OW',), cut_step=1, timeout=300, mem_mb=8000):
+    """Generated tables reader (yytables_fload .. yytables_destroy) on file images with symbolic table contents."""
+    wd = ctx.subdir('%s__%s__tl' % (spec.name, cfg.name))
+    tcfg = H.Config(cfg.name, cfg.flags, list(cfg.options) + ['tables-file="scanner.tables"'], cfg.api)
+    g = H.gen_scanner(ctx.ensure_tree(), wd, spec, tcfg, extra_options=ALLOC_OPTS)
+    hdr = os.path.join(wd, 'vp_harness.h')
+    if not os.path.exists(hdr):
+        shutil.copy(os.path.join(H.HDIR, 'vp_harness.h'), hdr)
+    jobs = []
+    if not g.ok:
+        return jobs, g
+    plan = [(lay, w1, w2, None, False) for lay in layouts for (w1, w2) in widths]
+    pad8 = lambda x: (x + 7) & ~7
+    for lay in cuts:
+        # file offsets: header 32 bytes; other set = header + one 4-byte table; wanted set = header + two tables
+        off, wend = 0, 0
+        for ch in lay:
+            off += 32 + (pad8(12 + 4) if ch == 'O' else pad8(12 + n * 2) + pad8(12 + n * 1))
+            if ch == 'W':
+                wend = off
+        plan += [(lay, 2, 1, k, False) for k in range(0, wend, cut_step)]
+    plan.append(('OW', 2, 1, None, True))
+    for lay, w1, w2, cut_at, wit in plan:
+        cut = cut_at is not None
+        tag = '%s_w%d%d%s%s' % (lay, w1, w2, '_cut%d' % cut_at if cut else '', '_w' if wit else '')
+        src = os.path.join(wd, 'tl_%s.c' % tag)
+        with open(src, 'w') as fh:
+            fh.write(H.tload_harness(g, tcfg, spec, lay, w1, w2, n=n, cut=cut, witness=wit, cut_at=cut_at or 0))
+        b = scanner_bounds(g, 2, 0)
+        b.update({'fn:yytbl_fload': len(lay) + 3, 'fn:yytbl_data_load': 10, 'fn:yytbl_dmap_lookup': 12, 'fn:yytables_destroy': 12})
+        j = cbmc.Job('tl_%s_%s_%s' % (spec.name, cfg.name, tag), wd, [src], b, includes=[wd, H.HDIR],
+                     harness_bound=70, default_bound=12, timeout=timeout, mem_mb=mem_mb, gen_file=g.cpath,
+                     extra=['--max-field-sensitivity-array-size', '300'],
+                     expect='witness' if wit else 'proved',
+                     meta=dict(engine='TL', entry=spec.name, config=cfg.name + '+tables-file',
+                               bound='file layout %s (W = set named for the scanner, O = other set), %d elements per table of widths %d/%d bytes, element bytes symbolic%s'
+                                     % (lay, n, w1, w2, ', file cut at offset %d' % cut_at if cut else ''),
+                               flex_input=g.ltext, flex_args=g.args))
+        jobs.append(j)
+    ctx.functions.update(['yytables_fload', 'yytbl_fload', 'yytbl_hdr_read', 'yytbl_data_load', 'yytbl_dmap_lookup', 'yytbl_read8', 'yytbl_read16', 'yytbl_read32', 'yytables_destroy'])
+    return jobs, g
